@@ -175,30 +175,52 @@ def parse_S(path):
 
 
 XMOV = {"movsd": "Xmovsd", "movq": "Xmovq", "movdqu": "Xmovdqu", "movups": "Xmovups"}
+YMOV = {"vmovdqu": "Xvmovdqu"}
+
+
+def c_function_body(src, fn):
+    m = re.search(r"\b%s\s*\(\s*struct\s+mcount_arch_context\s*\*\s*ctx\s*\)\s*\{(.*?)\n\}" % fn, src, flags=re.S)
+    if not m:
+        raise Unknown("arch context: function %s not found" % fn)
+    return re.sub(r"/\*.*?\*/", " ", m.group(1), flags=re.S)
+
+
+def parse_moves(src, fn):
+    ops = []
+    for stmt in [s.strip() for s in c_function_body(src, fn).split(";")]:
+        if not stmt:
+            continue
+        m1 = re.fullmatch(r'asm volatile\("(\w+) %%([xy])mm(\d+), %0\\n"\s*:\s*"=m"\(ctx->xmm\[(\d+)\]\)\)', stmt)
+        m2 = re.fullmatch(r'asm volatile\("(\w+) %0, %%([xy])mm(\d+)\\n"\s*:\s*:\s*"m"\(ctx->xmm\[(\d+)\]\)\)', stmt)
+        m = m1 or m2
+        tab = None
+        if m:
+            tab = XMOV if m.group(2) == "x" else YMOV
+        if m and m.group(1) in tab and int(m.group(3)) < 16:
+            if m1:
+                ops.append("XSave %s %s %s" % (tab[m.group(1)], m.group(3), m.group(4)))
+            else:
+                ops.append("XLoad %s %s %s" % (tab[m.group(1)], m.group(4), m.group(3)))
+        else:
+            raise Unknown("%s: unsupported statement `%s`" % (fn, stmt))
+    return ops
 
 
 def parse_arch_context(path):
+    """mcount_save/restore_arch_context: a dispatcher on `mcount_arch_have_avx` over an SSE and an AVX list of
+    inline-asm moves -> dict of four op lists; any other shape fails"""
     src = open(path).read()
-    res = {}
-    for fn in ("mcount_save_arch_context", "mcount_restore_arch_context"):
-        m = re.search(r"void\s+%s\s*\(\s*struct\s+mcount_arch_context\s*\*\s*ctx\s*\)\s*\{(.*?)\n\}" % fn, src, flags=re.S)
-        if not m:
-            raise Unknown("%s: %s not found" % (path, fn))
-        body = re.sub(r"/\*.*?\*/", " ", m.group(1), flags=re.S)
-        ops = []
-        for stmt in [s.strip() for s in body.split(";")]:
-            if not stmt:
-                continue
-            m1 = re.fullmatch(r'asm volatile\("(\w+) %%xmm(\d+), %0\\n"\s*:\s*"=m"\(ctx->xmm\[(\d+)\]\)\)', stmt)
-            m2 = re.fullmatch(r'asm volatile\("(\w+) %0, %%xmm(\d+)\\n"\s*:\s*:\s*"m"\(ctx->xmm\[(\d+)\]\)\)', stmt)
-            if m1 and m1.group(1) in XMOV:
-                ops.append("XSave %s %s %s" % (XMOV[m1.group(1)], m1.group(2), m1.group(3)))
-            elif m2 and m2.group(1) in XMOV:
-                ops.append("XLoad %s %s %s" % (XMOV[m2.group(1)], m2.group(3), m2.group(2)))
-            else:
-                raise Unknown("%s: %s: unsupported statement `%s`" % (path, fn, stmt))
-        res[fn] = ops
-    return res
+    norm = lambda b: re.sub(r"\s+", " ", b).strip()
+    save = norm(c_function_body(src, "mcount_save_arch_context"))
+    rest = norm(c_function_body(src, "mcount_restore_arch_context"))
+    want_save = ("if (mcount_arch_have_avx < 0) mcount_arch_have_avx = mcount_arch_check_avx(); "
+                 "if (mcount_arch_have_avx) mcount_save_arch_context_avx(ctx); else mcount_save_arch_context_sse(ctx);")
+    want_rest = "if (mcount_arch_have_avx > 0) mcount_restore_arch_context_avx(ctx); else mcount_restore_arch_context_sse(ctx);"
+    if save != want_save or rest != want_rest:
+        raise Unknown("%s: mcount_save/restore_arch_context are not the expected AVX/SSE dispatchers:\n  %s\n  %s" % (path, save, rest))
+    return {k: parse_moves(src, "mcount_%s_arch_context_%s" % (a, b))
+            for k, a, b in (("save_sse", "save", "sse"), ("restore_sse", "restore", "sse"),
+                            ("save_avx", "save", "avx"), ("restore_avx", "restore", "avx"))}
 
 
 WRAPPERS = [("libmcount/mcount.c", "mcount_entry", "__mcount_entry"), ("libmcount/mcount.c", "mcount_exit", "__mcount_exit"),
@@ -280,8 +302,9 @@ def main():
     v.append("")
     v.append("Definition arch_ctx_slot_bytes : Z := %d." % sb)
     v.append("Definition arch_ctx_slots : nat := %d." % ns)
-    v.append("Definition arch_ctx_save : list xop :=\n  [ %s ]." % ";\n    ".join(ctx["mcount_save_arch_context"]))
-    v.append("Definition arch_ctx_restore : list xop :=\n  [ %s ]." % ";\n    ".join(ctx["mcount_restore_arch_context"]))
+    v.append("(* the pair used when the ymm state is not enabled, and the pair used when it is *)")
+    for k in ("save_sse", "restore_sse", "save_avx", "restore_avx"):
+        v.append("Definition arch_ctx_%s : list xop :=\n  [ %s ]." % (k, ";\n    ".join(ctx[k])))
     v.append("")
     v.append("(* C wrappers the stubs call: (name, inner hook bracketed by save/restore of xmm0-7, by save/restore of errno) *)")
     v.append("Definition hook_wrappers : list (string * (bool * bool)) :=\n  [ %s ]." %
